@@ -22,6 +22,8 @@ All twenty properties are claimed in `MANIFEST.json`; `not_applicable` is empty.
    ⊆ {`propext`, `Classical.choice`, `Quot.sound`}; the thorough tier additionally re-checks the `.olean`s with `leanchecker`;
 3. runs the correspondence + oracle harness (`harness/props/cXX.py`) against `/repo`'s **working tree** (`PYTHONPATH=/repo/src/python`),
    pipes the same cases to the compiled Lean model (`posedriver`, JSON lines) and compares;
+   an exception that escapes from the library under test where the harness expected a result is itself a violation (its replay carries the traceback and the
+   harness call), not an infrastructure error — only failures of the harness's own code, of the Lean build tools or of a child interpreter exit with status 2;
 4. classifies violations against `known_findings.json`, writes `evidence/Cxx.json` (theorem list with axioms, case counts, input
    distribution, samples, assumptions, trusted base) and `replays/…json`, prints `VIOLATION property=… replay=…` lines, exits 0 / 1 (2 = infrastructure).
 
